@@ -1,8 +1,16 @@
 #!/bin/bash
-# Run once after a fresh restore, offline: builds the replay crate against /repo and warms Verus.
+# Run once after a fresh restore, offline: builds the replay crate against /repo, warms Verus and the Kani
+# dependency build (the harness results themselves are re-computed by the checks whenever /repo changes).
 cd "$(dirname "$0")"
 export CARGO_NET_OFFLINE=true
 mkdir -p build evidence replays
 ( cd replay && CARGO_TARGET_DIR=../build/replay-target cargo build --offline -q 2>&1 | tail -3 ) || echo "replay crate did not build (witness search disabled)"
 verus --version >/dev/null 2>&1 || { echo "verus missing"; exit 1; }
+# warm-up: one Verus unit and one Kani harness (fills build/kani-target; about 3 minutes cold)
+python3 tools/assemble.py codec_enc >/dev/null 2>&1 && ( cd build/units && verus codec_enc.rs >/dev/null 2>&1 )
+python3 -c "
+import sys; sys.path.insert(0,'tools')
+import kanitool
+r = kanitool.run_harness('store_delete','quick'); print('kani warm-up:', r.get('status'), r.get('wall'))
+" 2>&1 | tail -1
 exit 0
